@@ -21,6 +21,8 @@
 From Coq Require Import List.
 Import ListNotations.
 From MirV Require Import C13.Link C13.LinkProofs C13.BuildProofs C13.LinkExamples C13.Reent C13.ReentProofs.
+From Coq Require Import ZArith.
+From MirV Require Import C13.Perm.
 
 (* For every history p - rejected loads, failed links and interface-less links included -, every
    Link step taken after it (whatever follows): the step's output is
@@ -262,3 +264,18 @@ Theorem reent_failed_link_keeps_queue : forall s sc fb x res,
   exists added, to_link s' = to_link s ++ added.
 Proof. exact reent_failed_keeps_queue_proof. Qed.
 Print Assumptions reent_failed_link_keeps_queue.
+
+(* Round 3 (seeded C13-u2): MIR_set_func_redef_permission takes an `int` truth value.  For every state of a live
+   history and EVERY int z the step `R z` succeeds and leaves redefinition permitted iff z is non-zero
+   (2, -1, 256, INT_MIN ... permit).  A field that keeps only the low bit of z agrees on 0 and 1 and is refuted by 2. *)
+Theorem set_permission_any_nonzero_int : forall atomic s z,
+  dead s = false ->
+  (redef (fst (step atomic s (SetRedef (perm_of_int z)))) = true <-> z <> 0%Z) /\
+  snd (step atomic s (SetRedef (perm_of_int z))) = OOk.
+Proof. exact set_perm_int_proof. Qed.
+Print Assumptions set_permission_any_nonzero_int.
+
+Theorem permission_low_bit_only_refuted :
+  exists z, z <> 0%Z /\ perm_of_int z = true /\ perm_low_bit z = false.
+Proof. exact perm_low_bit_refuted_proof. Qed.
+Print Assumptions permission_low_bit_only_refuted.
